@@ -22,16 +22,21 @@ fn sym_heap(hb: u32) -> usize {
 fn finish(c: C, n: usize, extra: &[u8]) {
     drop(c);
     check_drops(n, extra);
+    vend!();
 }
 
 // ---------------------------------------------------------------------------
 // insert
 // ---------------------------------------------------------------------------
 pub fn h_insert(n: usize, tab: [u8; 8], hb: u32) {
+    h_insert_k(n, tab, hb, -1)
+}
+/// `kfix >= 0`: the key is concrete (one harness per key splits the query).
+pub fn h_insert_k(n: usize, tab: [u8; 8], hb: u32, kfix: i8) {
     let st = sym_state(n, hb);
     let mut c = build(n, &st.heaps, st.max, tab, if n <= 2 { CAP_SMALL } else { CAP });
     tm::expect_no_grow(true);
-    let k = sym_key(n as u8 + 1);
+    let k = if kfix >= 0 { kfix as u8 } else { sym_key(n as u8 + 1) };
     let h = sym_heap(hb);
     let e = esz(h);
     let present = (k as usize) < n;
@@ -42,7 +47,7 @@ pub fn h_insert(n: usize, tab: [u8; 8], hb: u32) {
     let mut departed = 0usize;
     if e > st.max {
         vcover!(true, "insert: entry larger than max_size");
-        vcover!(present, "insert: too-large entry for a present key");
+        vcover!(if present, true, "insert: too-large entry for a present key");
         match r {
             Err(InsertError::EntryTooLarge { key, value, entry_size, max_size }) => {
                 vassert!([C10, C06], key.k == k && key.id == NEW_KID && value.id == NEW_VID && value.heap == h, "EntryTooLarge does not return the very key and value passed in");
@@ -70,10 +75,14 @@ pub fn h_insert(n: usize, tab: [u8; 8], hb: u32) {
             }
             j += 1;
         }
-        vcover!(cur + e == st.max && n > 0 && alive[0], "insert: exact fit, nothing evicted");
-        vcover!(n >= 2 && !alive[0] && alive[n - 1] && k as usize != 0, "insert: evicts a proper prefix");
-        vcover!(n >= 1 && cur == 0 && !present, "insert: evicts everything");
-        vcover!(present && n >= 2 && alive[if k == 0 { 1 } else { 0 }] && cur + e > st.max - st.sz[k as usize], "insert: replacement fits only because the old entry's size is credited first");
+        // first / last original entry other than the key's own
+        let f = if k == 0 { 1 } else { 0 };
+        let l = if n >= 1 && k as usize == n - 1 { n.wrapping_sub(2) } else { n.wrapping_sub(1) };
+        let others = n - if present { 1 } else { 0 };
+        vcover!(if others >= 1, cur + e == st.max && alive[f], "insert: exact fit, nothing evicted");
+        vcover!(if others >= 2, !alive[f] && alive[l], "insert: evicts a proper prefix");
+        vcover!(if others >= 1, cur == 0, "insert: evicts everything");
+        vcover!(if present && others >= 1, alive[f] && cur + e > st.max - st.sz[k as usize], "insert: replacement fits only because the old entry's size is credited first");
         match r {
             Ok(Some(v)) => {
                 vassert!([C04, C06], present && v.id == k && v.heap == st.heaps[k as usize], "insert returned a value other than the one previously stored for the key");
@@ -117,9 +126,9 @@ pub fn h_set_max_size(n: usize, tab: [u8; 8], hb: u32) {
         }
         j += 1;
     }
-    vcover!(n > 0 && cur == m && alive[0], "set_max_size: exactly the current size, nothing evicted");
-    vcover!(n >= 2 && !alive[0] && alive[n - 1], "set_max_size: evicts a proper prefix");
-    vcover!(n >= 1 && !alive[n - 1], "set_max_size: evicts everything");
+    vcover!(if n > 0, cur == m && alive[0], "set_max_size: exactly the current size, nothing evicted");
+    vcover!(if n >= 2, !alive[0] && alive[n - 1], "set_max_size: evicts a proper prefix");
+    vcover!(if n >= 1, !alive[n - 1], "set_max_size: evicts everything");
     vcover!(m > st.max, "set_max_size: raises the limit");
     let exp = Exp { alive, tail: None, max: m };
     check_state(&c, &st, &exp, Want { evicting: true });
@@ -129,28 +138,402 @@ pub fn h_set_max_size(n: usize, tab: [u8; 8], hb: u32) {
     finish(c, n, &[]);
 }
 
-macro_rules! harnesses {
-    ($( $name:ident [$u:literal] => $body:expr; )*) => {
-        $(
-            #[cfg(kani)]
-            #[kani::proof]
-            #[kani::unwind($u)]
-            fn $name() { $body }
-        )*
-        #[cfg(not(kani))]
-        pub fn dispatch(h: &str) -> bool {
-            match h {
-                $( stringify!($name) => { $body; true } )*
-                _ => false
+// ---------------------------------------------------------------------------
+// try_insert
+// ---------------------------------------------------------------------------
+pub fn h_try_insert(n: usize, tab: [u8; 8], hb: u32) {
+    h_try_insert_k(n, tab, hb, -1)
+}
+pub fn h_try_insert_k(n: usize, tab: [u8; 8], hb: u32, kfix: i8) {
+    let st = sym_state(n, hb);
+    let mut c = build(n, &st.heaps, st.max, tab, if n <= 2 { CAP_SMALL } else { CAP });
+    tm::expect_no_grow(true);
+    let k = if kfix >= 0 { kfix as u8 } else { sym_key(n as u8 + 1) };
+    let h = sym_heap(hb);
+    let e = esz(h);
+    let present = (k as usize) < n;
+    let free = st.max - st.sum;
+    #[cfg(any(vp_all, C10))]
+    let f0 = fp(&c, n + 1);
+    let r = c.try_insert(Key::new(k, NEW_KID), Val { heap: h, id: NEW_VID });
+    let hashes = unsafe { HASHES };
+    vcover!(if present, e > st.max, "try_insert: too large and occupied at once");
+    vcover!(if present, e <= st.max && e > free, "try_insert: would eject and occupied at once");
+    vcover!(if present, e <= free, "try_insert: occupied only");
+    vcover!(if n > 0 && !present, e == free, "try_insert: exact fit succeeds");
+    vcover!(e == free + 1 && e <= st.max, "try_insert: one byte over the free space");
+    vcover!(e == st.max + 1, "try_insert: one byte over max_size");
+    let ok = match r {
+        Ok(()) => {
+            vassert!([C10, C04], e <= free && !present, "try_insert succeeded although the entry is too large, does not fit the free space, or the key is present");
+            true
+        }
+        Err(err) => {
+            {
+                let (ek, ev) = err.entry();
+                vassert!([C10, C06], ek.k == k && ek.id == NEW_KID && ev.id == NEW_VID && ev.heap == h, "TryInsertError::entry() is not the very key and value passed in");
+                vassert!([C10], err.key().id == NEW_KID && err.value().id == NEW_VID, "TryInsertError::key()/value() are not the key and value passed in");
             }
+            match err {
+                TryInsertError::EntryTooLarge { key, value, entry_size, max_size } => {
+                    vassert!([C10], e > st.max, "try_insert reported EntryTooLarge for an entry that fits max_size");
+                    vassert!([C10], entry_size == e && max_size == st.max, "EntryTooLarge reports wrong entry_size / max_size");
+                    vassert!([C10, C06], key.id == NEW_KID && value.id == NEW_VID, "EntryTooLarge does not carry the key and value passed in");
+                }
+                TryInsertError::WouldEjectLru { key, value, entry_size, free_memory } => {
+                    vassert!([C10], e <= st.max && e > free, "try_insert reported WouldEjectLru although the entry is too large for the cache or fits the free space");
+                    vassert!([C10], entry_size == e && free_memory == free, "WouldEjectLru reports wrong entry_size / free_memory");
+                    vassert!([C10, C06], key.id == NEW_KID && value.id == NEW_VID, "WouldEjectLru does not carry the key and value passed in");
+                }
+                TryInsertError::OccupiedEntry { key, value } => {
+                    vassert!([C10, C04], e <= free && present, "try_insert reported OccupiedEntry although another failure takes precedence or the key is absent");
+                    vassert!([C10, C06], key.id == NEW_KID && value.id == NEW_VID, "OccupiedEntry does not carry the key and value passed in");
+                }
+            }
+            false
         }
     };
+    if ok {
+        let exp = Exp { alive: Exp::unchanged(&st).alive, tail: Some(Ent { k, kid: NEW_KID, vid: NEW_VID, heap: h }), max: st.max };
+        check_state(&c, &st, &exp, Want { evicting: false });
+    } else {
+        check_state(&c, &st, &Exp::unchanged(&st), Want { evicting: false });
+        vassert!([C10], fp(&c, n + 1).same(&f0), "a rejected try_insert changed contents, order, sizes or links");
+    }
+    vassert!([C20], hashes <= 2, "try_insert computed more than two key hashes");
+    inv(&c, n + 1);
+    drain_probe(&mut c, n + 1);
+    finish(c, n, &[NEW_VID, NEW_KID]);
 }
 
+// ---------------------------------------------------------------------------
+// mutate
+// ---------------------------------------------------------------------------
+static mut CALLED: u8 = 0;
+
+pub fn h_mutate(n: usize, tab: [u8; 8], hb: u32) {
+    h_mutate_k(n, tab, hb, -1)
+}
+pub fn h_mutate_k(n: usize, tab: [u8; 8], hb: u32, kfix: i8) {
+    let st = sym_state(n, hb);
+    let mut c = build(n, &st.heaps, st.max, tab, if n <= 2 { CAP_SMALL } else { CAP });
+    let k = if kfix >= 0 { kfix as u8 } else { sym_key(n as u8 + 1) };
+    let nh = sym_heap(hb);
+    let newsz = esz(nh);
+    let present = (k as usize) < n;
+    let ki = if present { k as usize } else { 0 };
+    // A1(c): the contents plus the growth of the mutated value are representable
+    if present && newsz <= st.max {
+        match (st.sum - st.sz[ki]).checked_add(newsz) {
+            Some(_) => {}
+            None => sym::assume(false),
+        }
+    }
+    let r = c.mutate(&k, |v: &mut Val| {
+        unsafe { CALLED += 1; }
+        v.heap = nh;
+        77u8
+    });
+    let hashes = unsafe { HASHES };
+    let called = unsafe { CALLED };
+    let mut departed = 0usize;
+    if !present {
+        vassert!([C11], matches!(r, Ok(None)), "mutate of an absent key did not return Ok(None)");
+        vassert!([C11], called == 0, "mutate called the closure for an absent key");
+        check_state(&c, &st, &Exp::unchanged(&st), Want { evicting: false });
+    } else {
+        vassert!([C11], called == 1, "mutate did not call the closure exactly once for a present key");
+        let old = st.sz[ki];
+        if newsz > st.max {
+            vcover!(true, "mutate: growth beyond max_size");
+            vcover!(if n >= 2 && ki == 0, true, "mutate: the LRU entry grows beyond max_size");
+            match r {
+                Err(MutateError::EntryTooLarge { key, value, old_entry_size, new_entry_size, max_size }) => {
+                    vassert!([C11, C06], key.k == k && key.id == 8 + k && value.id == k && value.heap == nh, "MutateError::EntryTooLarge does not return the entry's key and the mutated value");
+                    vassert!([C11], old_entry_size == old && new_entry_size == newsz && max_size == st.max, "MutateError::EntryTooLarge reports wrong sizes");
+                }
+                _ => {
+                    vassert!([C11, C01], false, "mutate accepted a value whose entry exceeds max_size");
+                }
+            }
+            let mut alive = Exp::unchanged(&st).alive;
+            alive[ki] = false;
+            departed = 1;
+            let exp = Exp { alive, tail: None, max: st.max };
+            check_state(&c, &st, &exp, Want { evicting: false });
+        } else {
+            match r {
+                Ok(Some(t)) => {
+                    vassert!([C11], t == 77, "mutate did not forward the closure's result");
+                }
+                _ => {
+                    vassert!([C11], false, "mutate failed although the mutated entry fits max_size");
+                }
+            }
+            let mut alive = [false; NMAX];
+            let mut cur = st.sum - old + newsz;
+            let mut j = 0;
+            while j < n {
+                if j == ki {
+                } else if cur > st.max {
+                    cur -= st.sz[j];
+                    departed += 1;
+                } else {
+                    alive[j] = true;
+                }
+                j += 1;
+            }
+            vcover!(nh < st.heaps[ki], "mutate: shrink");
+            vcover!(nh == st.heaps[ki], "mutate: no size change");
+            vcover!(if n >= 2, nh > st.heaps[ki] && departed == 0, "mutate: growth that fits");
+            vcover!(if n >= 3, departed == 1 && alive[if ki == n - 1 { n - 2 } else { n - 1 }], "mutate: growth evicting exactly one of several");
+            vcover!(if n >= 2, departed == n - 1, "mutate: growth evicting every other entry");
+            vcover!(if n >= 2 && ki == 0, departed >= 1, "mutate: the LRU entry grows and older-by-promotion entries are evicted");
+            vcover!(cur == st.max && nh > st.heaps[ki], "mutate: growth to an exact fit");
+            let exp = Exp { alive, tail: Some(Ent { k, kid: 8 + k, vid: k, heap: nh }), max: st.max };
+            check_state(&c, &st, &exp, Want { evicting: true });
+        }
+    }
+    vassert!([C20], hashes <= 2 + departed, "mutate computed more than two key hashes plus one per departing entry");
+    inv(&c, n + 1);
+    drain_probe(&mut c, n + 1);
+    finish(c, n, &[]);
+}
+
+// ---------------------------------------------------------------------------
+// remove, remove_entry, remove_lru, remove_mru
+// ---------------------------------------------------------------------------
+pub fn h_remove(n: usize, tab: [u8; 8], hb: u32, which: u8) {
+    let st = sym_state(n, hb);
+    let mut c = build(n, &st.heaps, st.max, tab, CAP);
+    let k = sym_key(n as u8 + 1);
+    let mut alive = Exp::unchanged(&st).alive;
+    let mut departed = 0usize;
+    let victim: Option<usize> = match which {
+        0 | 1 => if (k as usize) < n { Some(k as usize) } else { None },
+        2 => if n > 0 { Some(0) } else { None },
+        _ => if n > 0 { Some(n - 1) } else { None },
+    };
+    let got: Option<(Option<Key>, Val)> = match which {
+        0 => c.remove(&k).map(|v| (None, v)),
+        1 => c.remove_entry(&k).map(|(kk, v)| (Some(kk), v)),
+        2 => c.remove_lru().map(|(kk, v)| (Some(kk), v)),
+        _ => c.remove_mru().map(|(kk, v)| (Some(kk), v)),
+    };
+    let hashes = unsafe { HASHES };
+    match (got, victim) {
+        (Some((gk, gv)), Some(vi)) => {
+            vassert!([C04, C06], gv.id == vi as u8 && gv.heap == st.heaps[vi], "removal returned a value other than the one stored for the key");
+            if let Some(gk) = gk {
+                vassert!([C04, C06], gk.k == vi as u8 && gk.id == 8 + vi as u8, "removal returned a key other than the stored one");
+            }
+            alive[vi] = false;
+            departed = 1;
+        }
+        (None, None) => {}
+        (Some(_), None) => {
+            vassert!([C04], false, "removal returned an entry for an absent key / from an empty cache");
+        }
+        (None, Some(_)) => {
+            vassert!([C04], false, "removal returned nothing although the entry is present");
+        }
+    }
+    vcover!(if n > 0, victim.is_some(), "remove: entry present");
+    vcover!(if which < 2 || n == 0, victim.is_none(), "remove: nothing to remove");
+    let exp = Exp { alive, tail: None, max: st.max };
+    check_state(&c, &st, &exp, Want { evicting: false });
+    vassert!([C20], hashes <= 2 + departed, "removal computed more than two key hashes plus one per departing entry");
+    inv(&c, n + 1);
+    drain_probe(&mut c, n + 1);
+    finish(c, n, &[]);
+}
+
+// ---------------------------------------------------------------------------
+// accesses: get, get_entry, get_lru, touch promote; peek*, contains do not
+// ---------------------------------------------------------------------------
+pub fn h_access(n: usize, tab: [u8; 8], which: u8) {
+    let st = sym_state(n, 40);
+    let mut c = build(n, &st.heaps, st.max, tab, CAP);
+    let k = sym_key(n as u8 + 1);
+    let present = (k as usize) < n;
+    #[cfg(any(vp_all, C19, C05))]
+    let f0 = fp(&c, n + 1);
+    // (found key, found value id, found heap)
+    let got: Option<(u8, u8, usize)> = match which {
+        0 => c.get(&k).map(|v| (k, v.id, v.heap)),
+        1 => c.get_entry(&k).map(|(kk, v)| (kk.k, v.id, v.heap)),
+        2 => c.get_lru().map(|(kk, v)| (kk.k, v.id, v.heap)),
+        3 => { c.touch(&k); if present { Some((k, k, st.heaps[k as usize])) } else { None } }
+        4 => c.peek(&k).map(|v| (k, v.id, v.heap)),
+        5 => c.peek_entry(&k).map(|(kk, v)| (kk.k, v.id, v.heap)),
+        6 => if c.contains(&k) { Some((k, k, st.heaps[k as usize])) } else { None },
+        7 => c.peek_lru().map(|(kk, v)| (kk.k, v.id, v.heap)),
+        _ => c.peek_mru().map(|(kk, v)| (kk.k, v.id, v.heap)),
+    };
+    let hashes = unsafe { HASHES };
+    let target: Option<usize> = match which {
+        2 | 7 => if n > 0 { Some(0) } else { None },
+        8 => if n > 0 { Some(n - 1) } else { None },
+        _ => if present { Some(k as usize) } else { None },
+    };
+    match (got, target) {
+        (Some((gk, gid, gh)), Some(t)) => {
+            vassert!([C04, C05], gk == t as u8 && gid == t as u8 && gh == st.heaps[t], "access returned a different entry than the one stored for the key / at that end of the order");
+        }
+        (None, None) => {}
+        _ => {
+            vassert!([C04, C05], false, "access found an absent entry or missed a present one");
+        }
+    }
+    vcover!(if n >= 2 && which != 8, target == Some(0), "access: the LRU entry");
+    vcover!(if n >= 3 && which != 2 && which < 7, target == Some(1), "access: a middle entry");
+    vcover!(if n >= 1 && which != 2 && which != 7, target == Some(n - 1), "access: the MRU entry");
+    vcover!(if n == 0 || (which != 2 && which < 7), target.is_none(), "access: absent");
+    let promoting = which <= 3;
+    let mut alive = Exp::unchanged(&st).alive;
+    let mut tail = None;
+    if promoting {
+        if let Some(t) = target {
+            alive[t] = false;
+            tail = Some(Ent { k: t as u8, kid: 8 + t as u8, vid: t as u8, heap: st.heaps[t] });
+        }
+    }
+    let exp = Exp { alive, tail, max: st.max };
+    check_state(&c, &st, &exp, Want { evicting: false });
+    if !promoting {
+        vassert!([C19, C05], fp(&c, n + 1).same(&f0), "an observation through a shared reference changed the cache's structure");
+    }
+    if which == 7 || which == 8 {
+        vassert!([C20], hashes == 0, "peek_lru/peek_mru computed a key hash");
+    } else {
+        vassert!([C20], hashes <= 2, "an access computed more than two key hashes");
+    }
+    inv(&c, n + 1);
+    drain_probe(&mut c, n + 1);
+    finish(c, n, &[]);
+}
+
+// ---------------------------------------------------------------------------
+// retain
+// ---------------------------------------------------------------------------
+static mut LOG: [(u8, u8, u8); NMAX + 1] = [(99, 99, 99); NMAX + 1];
+static mut LOGN: usize = 0;
+
+pub fn h_retain(n: usize, tab: [u8; 8]) {
+    let st = sym_state(n, 40);
+    let mut c = build(n, &st.heaps, st.max, tab, CAP);
+    let mask: u8 = sym::any();
+    c.retain(|k: &Key, v: &Val| {
+        unsafe {
+            if LOGN < NMAX + 1 {
+                LOG[LOGN] = (k.k, k.id, v.id);
+            }
+            LOGN += 1;
+        }
+        (mask >> v.id) & 1 == 1
+    });
+    let hashes = unsafe { HASHES };
+    vassert!([C15], unsafe { LOGN } == n, "retain did not call the predicate exactly once per entry");
+    let mut alive = [false; NMAX];
+    let mut departed = 0;
+    let mut j = 0;
+    while j < n {
+        vassert!([C15], unsafe { LOG[j] } == (j as u8, 8 + j as u8, j as u8), "retain did not visit the entries from least- to most-recently-used with their actual key and value");
+        if (mask >> j) & 1 == 1 {
+            alive[j] = true;
+        } else {
+            departed += 1;
+        }
+        j += 1;
+    }
+    vcover!(if n >= 3, departed == 0, "retain: keeps all");
+    vcover!(if n >= 3, departed == n, "retain: removes all");
+    vcover!(if n >= 3, !alive[0] && alive[1] && !alive[2], "retain: removes both ends");
+    vcover!(if n >= 3, alive[0] && !alive[1] && alive[2], "retain: removes the middle");
+    let exp = Exp { alive, tail: None, max: st.max };
+    check_state(&c, &st, &exp, Want { evicting: false });
+    vassert!([C20], hashes <= 2 + departed, "retain computed more than two key hashes plus one per departing entry");
+    inv(&c, n + 1);
+    drain_probe(&mut c, n + 1);
+    finish(c, n, &[]);
+}
+
+// ---------------------------------------------------------------------------
+// clear
+// ---------------------------------------------------------------------------
+pub fn h_clear(n: usize, tab: [u8; 8]) {
+    let st = sym_state(n, 40);
+    let mut c = build(n, &st.heaps, st.max, tab, CAP);
+    c.clear();
+    let hashes = unsafe { HASHES };
+    let exp = Exp { alive: [false; NMAX], tail: None, max: st.max };
+    check_state(&c, &st, &exp, Want { evicting: false });
+    vassert!([C02, C12], c.len() == 0 && c.current_size() == 0 && c.is_empty(), "clear did not reset len / current_size");
+    vassert!([C20], hashes == 0, "clear computed a key hash");
+    inv(&c, n + 1);
+    // the cleared cache is fully usable
+    let h = sym_heap(40);
+    sym::assume(esz(h) <= st.max);
+    let r = c.insert(Key::new(0, NEW_KID), Val { heap: h, id: NEW_VID });
+    vassert!([C02, C04, C06], matches!(r, Ok(None)), "insert into a cleared cache did not succeed as a fresh insertion");
+    vassert!([C02, C04], c.len() == 1 && c.current_size() == esz(h) && c.peek(&0u8).map(|v| v.id) == Some(NEW_VID), "a cleared cache does not hold exactly the entry inserted afterwards");
+    inv(&c, n + 1);
+    finish(c, n, &[NEW_VID, NEW_KID]);
+}
+
+
+// tab_of(6) = [0,1,0,1] "mixed" (two collision classes); tab_of(0) = all keys collide; tab_of(14) = all distinct.
+// Heavy operations are split by concrete key (kN = key N; key n is the absent one): one query per key.
 harnesses! {
-    insert_n2_mixed [4] => h_insert(2, tab_of(6), 40); //@ q=C01,C02,C03,C04,C05,C06,C07,C10,C20 to=900
-    insert_n2_hb16 [4] => h_insert(2, tab_of(6), 16); //@ t=C00 to=900
-    insert_n3_mixed [5] => h_insert(3, tab_of(6), 40); //@ t=C01,C02,C03,C04,C05,C06,C07,C10,C20 to=1800
-    setmax_n2_mixed [4] => h_set_max_size(2, tab_of(6), 40); //@ q=C01,C02,C03,C05,C06,C07,C20 to=600
+    insert_n3_k0 [5] => h_insert_k(3, tab_of(6), 40, 0); //@ q=C01,C02,C03,C04,C05,C06,C07,C10,C20 to=1200
+    insert_n3_k1 [5] => h_insert_k(3, tab_of(6), 40, 1); //@ q=C01,C02,C03,C04,C05,C06,C07,C10,C20 to=1200
+    insert_n3_k2 [5] => h_insert_k(3, tab_of(6), 40, 2); //@ q=C01,C02,C03,C05 t=C04,C06,C07,C10,C20 to=1200
+    insert_n3_k3 [5] => h_insert_k(3, tab_of(6), 40, 3); //@ q=C01,C02,C03,C04,C05,C06,C07,C10,C20 to=1200
+    insert_n2_sym [4] => h_insert(2, tab_of(6), 40); //@ t=C01,C02,C03,C04,C10 to=2400 solver=portfolio
+    insert_n3_collide_k1 [5] => h_insert_k(3, tab_of(0), 40, 1); //@ q=C04 t=C01,C03,C07 to=1200
+    insert_n3_distinct_k3 [5] => h_insert_k(3, tab_of(14), 40, 3); //@ t=C04,C01,C03 to=1200
+    insert_n1_full [3] => h_insert(1, tab_of(6), 64); //@ q=C01,C02,C03,C10 to=600
+    insert_n0_full [3] => h_insert(0, tab_of(6), 64); //@ q=C01,C02,C10 to=600
+    insert_n2_full_k0 [4] => h_insert_k(2, tab_of(6), 64, 0); //@ t=C01,C02,C03,C10 to=1800
+    insert_n2_full_k2 [4] => h_insert_k(2, tab_of(6), 64, 2); //@ t=C01,C02,C03,C10 to=1800
+    setmax_n2_full [4] => h_set_max_size(2, tab_of(6), 64); //@ q=C01,C02,C03,C05,C06,C07,C20 to=600
     setmax_n3_mixed [5] => h_set_max_size(3, tab_of(6), 40); //@ q=C01,C02,C03,C05,C06,C07,C20 to=600
+    setmax_n3_collide_full [5] => h_set_max_size(3, tab_of(0), 64); //@ q=C03 t=C01,C02,C05,C06,C07 to=900
+    setmax_n4_mixed [6] => h_set_max_size(4, tab_of(6), 40); //@ t=C01,C02,C03,C05 to=1200
+    tryinsert_n3_k0 [5] => h_try_insert_k(3, tab_of(6), 40, 0); //@ q=C01,C02,C04,C05,C06,C07,C10,C20 to=900
+    tryinsert_n3_k3 [5] => h_try_insert_k(3, tab_of(6), 40, 3); //@ q=C01,C02,C04,C05,C06,C07,C10,C20 to=900
+    tryinsert_n3_k1 [5] => h_try_insert_k(3, tab_of(6), 40, 1); //@ t=C01,C02,C04,C05,C10 to=900
+    tryinsert_n2_sym_full [4] => h_try_insert(2, tab_of(6), 64); //@ q=C10 t=C01,C02,C04 to=1200
+    tryinsert_n2_collide [4] => h_try_insert(2, tab_of(0), 40); //@ q=C04,C10 to=900
+    mutate_n3_k0 [5] => h_mutate_k(3, tab_of(6), 40, 0); //@ q=C01,C02,C03,C05,C06,C07,C11,C20 to=1200 solver=cadical
+    mutate_n3_k1 [5] => h_mutate_k(3, tab_of(6), 40, 1); //@ q=C01,C02,C03,C05,C06,C07,C11,C20 to=1200 solver=cadical
+    mutate_n3_k2 [5] => h_mutate_k(3, tab_of(6), 40, 2); //@ q=C01,C02,C03,C05,C11 t=C06,C07,C20 to=1200 solver=cadical
+    mutate_n3_k3 [5] => h_mutate_k(3, tab_of(6), 40, 3); //@ q=C05,C11,C20 t=C01,C02 to=600 solver=cadical
+    mutate_n2_sym [4] => h_mutate(2, tab_of(6), 40); //@ t=C01,C02,C03,C11 to=3000 solver=portfolio
+    mutate_n3_collide_k0 [5] => h_mutate_k(3, tab_of(0), 40, 0); //@ t=C01,C03,C07,C11 to=1200 solver=cadical
+    mutate_n1_full [3] => h_mutate(1, tab_of(6), 64); //@ q=C01,C02,C11 to=600 solver=cadical
+    mutate_n2_full_k0 [4] => h_mutate_k(2, tab_of(6), 64, 0); //@ t=C01,C02,C03,C11 to=1800 solver=cadical
+    remove_n3_mixed [5] => h_remove(3, tab_of(6), 40, 0); //@ q=C01,C02,C04,C05,C06,C07,C20 to=600
+    remove_entry_n3_collide [5] => h_remove(3, tab_of(0), 40, 1); //@ q=C02,C04,C05,C06,C07,C20 to=600
+    remove_lru_n3_mixed [5] => h_remove(3, tab_of(6), 40, 2); //@ q=C02,C04,C05,C06,C07,C20 to=600
+    remove_mru_n3_mixed [5] => h_remove(3, tab_of(6), 40, 3); //@ q=C02,C04,C05,C06,C07,C20 to=600
+    remove_n0 [3] => h_remove(0, tab_of(6), 40, 2); //@ q=C04 t=C02 to=600
+    remove_n4_mixed [6] => h_remove(4, tab_of(6), 40, 0); //@ t=C02,C04,C05,C06 to=900
+    get_n3_mixed [5] => h_access(3, tab_of(6), 0); //@ q=C04,C05,C07,C20 t=C01,C02 to=600
+    get_n3_collide [5] => h_access(3, tab_of(0), 0); //@ q=C04 t=C05,C07 to=600
+    get_entry_n3_mixed [5] => h_access(3, tab_of(6), 1); //@ q=C04,C05,C20 t=C07 to=600
+    get_lru_n3_mixed [5] => h_access(3, tab_of(6), 2); //@ q=C04,C05,C20 t=C07 to=600
+    touch_n3_mixed [5] => h_access(3, tab_of(6), 3); //@ q=C05,C07,C20 t=C04 to=600
+    get_n4_mixed [6] => h_access(4, tab_of(6), 0); //@ t=C04,C05 to=900
+    touch_n1 [3] => h_access(1, tab_of(6), 3); //@ q=C05 to=600
+    get_lru_n0 [3] => h_access(0, tab_of(6), 2); //@ q=C05 to=600
+    peek_n3_mixed [5] => h_access(3, tab_of(6), 4); //@ q=C04,C05,C19,C20 to=600
+    peek_entry_n3_collide [5] => h_access(3, tab_of(0), 5); //@ q=C04,C05,C19,C20 to=600
+    contains_n3_mixed [5] => h_access(3, tab_of(6), 6); //@ q=C04,C05,C19,C20 to=600
+    peek_lru_n3_mixed [5] => h_access(3, tab_of(6), 7); //@ q=C05,C19,C20 to=600
+    peek_mru_n3_mixed [5] => h_access(3, tab_of(6), 8); //@ q=C05,C19,C20 to=600
+    retain_n3_mixed [5] => h_retain(3, tab_of(6)); //@ q=C01,C02,C04,C05,C06,C07,C15,C20 to=900
+    retain_n2_collide [4] => h_retain(2, tab_of(0)); //@ q=C15 t=C04,C07 to=900
+    retain_n4_mixed [6] => h_retain(4, tab_of(6)); //@ t=C15,C05,C06 to=1200
+    clear_n3_mixed [5] => h_clear(3, tab_of(6)); //@ q=C02,C06,C07,C20 t=C01,C04 to=600
 }
